@@ -7,6 +7,7 @@ import json, os, re, subprocess, sys, glob, time
 ALSO = {  # seeded change -> other checks that are expected to see it
     "C19-B": ["C10"], "C04-B": ["C10"], "C04-D": ["C10"], "C13-D": ["C15"], "C19-A": ["C09"], "C02-A": ["C09"],
     "C06-B": ["C09"], "C03-D": ["C02"], "C08-A": ["C17"], "C14-B": ["C13"],
+    "C04-F": ["C10"], "C15-D": ["C14"], "C06-F": ["C04"], "C15-E": ["C14"], "C15-F": ["C13"], "C13-E": ["C15"], "C19-E": ["C10"],
 }
 
 def sh(cmd, cwd="/verif", timeout=900):
